@@ -141,6 +141,8 @@ class CSSFontFaceRule(cssrule.CSSRule):
             # SET, may raise:
             newStyle.cssText = styletokens
 
+            # (read by the parser of the containing sheet or rule)
+            self._accepted = ok
             if ok:
                 # contains probably comments only (upto ``{``)
                 self._setSeq(newseq)
